@@ -97,3 +97,670 @@ class Items:
 
     def binrw_items(self):
         return [i for i in self.items if is_binrw_item(i)]
+
+
+# ------------------------------------------------------------------------------------------------
+# Wire model: serialised layout of binrw items, computed from the declarations (nothing is run).
+
+PRIM = {"u8": 1, "i8": 1, "bool": None, "u16": 2, "i16": 2, "u32": 4, "i32": 4, "f32": 4, "u64": 8, "i64": 8, "f64": 8, "u128": 16, "i128": 16, "f16": 2}
+
+
+class WField:
+    """One element of a serialised stream."""
+
+    __slots__ = ("name", "kind", "size", "endian", "cond", "ty", "note", "elem", "count", "public", "line", "net_zero")
+
+    def __init__(self, name, kind, size, endian=None, cond=None, ty=None, note=None, elem=None, count=None, public=False, line=0, net_zero=False):
+        self.name = name
+        self.kind = kind  # data | pad | magic | seek
+        self.size = size  # int | None (variable / unknown)
+        self.endian = endian
+        self.cond = cond
+        self.ty = ty
+        self.note = note
+        self.elem = elem
+        self.count = count
+        self.public = public
+        self.line = line
+        self.net_zero = net_zero
+
+    def as_dict(self):
+        return {k: getattr(self, k) for k in self.__slots__ if getattr(self, k) not in (None, False, 0) or k in ("name", "kind", "size")}
+
+
+def ty_text(toks):
+    return tok_text(toks).replace(" ", "")
+
+
+class WireModel:
+    def __init__(self, wire, prog=None):
+        self.items = Items(wire)
+        self.prog = prog
+        self.fn_sigs = {f["name"].split("::")[-1]: f for f in wire["fns"]}
+        self._size_cache = {}
+
+    # ---- type resolution
+    def find_item(self, name, near=None):
+        """Resolve a type name as written in `near`'s file (module-aware: same module first)."""
+        name = name.split("::")[-1]
+        cands = [i for i in self.items.items if i["name"] == name]
+        if not cands:
+            return None
+        if near is not None:
+            same = [i for i in cands if i["file"] == near["file"]]
+            if same:
+                return same[0]
+        binrw = [i for i in cands if is_binrw_item(i)]
+        return (binrw or cands)[0]
+
+    def const_value(self, name, near=None):
+        """Integer value of a named constant via the compiler's evaluation (mirfacts consts)."""
+        if self.prog is None:
+            return None
+        name = name.replace(" ", "")
+        tail = name.split("::")[-1]
+        hits = [(p, c) for p, c in self.prog.consts.items() if p.split("::")[-1] == tail and "bits" in c]
+        if near is not None and len(hits) > 1:
+            mod = near["path"].rsplit("::", 1)[0]
+            same = [(p, c) for p, c in hits if p.startswith(mod + "::")]
+            if same:
+                hits = same
+        if len(hits) == 1:
+            return int(hits[0][1]["bits"])
+        return None
+
+    def int_expr(self, toks, near=None):
+        """Value of a constant expression: literal, named const, `A * B`, `A + B`, `A - B`, `A / B`, `A as T`."""
+        toks = [t for t in toks]
+        # strip `as T`
+        if "as" in toks:
+            toks = toks[: toks.index("as")]
+        if len(toks) == 1:
+            v = int_lit(toks[0])
+            if v is not None:
+                return v
+            if isinstance(toks[0], str):
+                return self.const_value(toks[0], near)
+            if isinstance(toks[0], dict) and toks[0].get("g") == "(":
+                return self.int_expr(toks[0]["t"], near)
+            return None
+        # path A::B
+        if all(isinstance(t, str) for t in toks) and "::" in toks and not any(t in "+-*/" for t in toks):
+            return self.const_value("".join(toks), near)
+        for op in ("+", "-", "*", "/", "<<"):
+            if op in toks:
+                i = len(toks) - 1 - toks[::-1].index(op)
+                a, b = self.int_expr(toks[:i], near), self.int_expr(toks[i + 1 :], near)
+                if a is None or b is None:
+                    return None
+                return {"+": a + b, "-": a - b, "*": a * b, "/": a // b if b else None, "<<": a << b}[op]
+        return None
+
+    def type_size(self, tyt, near=None, args=None):
+        """Serialised size of a Rust type as binrw reads it with no directives: int or None (variable/unknown)."""
+        t = [x for x in tyt]
+        tp = getattr(self, "_tparams", None)
+        if tp and len(t) == 1 and isinstance(t[0], str) and t[0] in tp:
+            sub = tp[t[0]]
+            self._tparams = None
+            try:
+                return self.type_size(sub, near, args)
+            finally:
+                self._tparams = tp
+        if len(t) == 1 and isinstance(t[0], str):
+            n = t[0]
+            if n in PRIM:
+                return PRIM[n]
+            it = self.find_item(n, near)
+            if it is not None and is_binrw_item(it):
+                return self.item_size(it, args)
+            bf = self.bitflags_repr(n)
+            if bf is not None:
+                return PRIM.get(bf)
+            ms = self.manual_read_size(n, near)
+            if ms is not None:
+                return ms
+            return None
+        if len(t) == 1 and isinstance(t[0], dict) and t[0].get("g") == "[":
+            inner = t[0]["t"]
+            if ";" in inner:
+                i = inner.index(";")
+                es = self.type_size(inner[:i], near)
+                n = self.int_expr(inner[i + 1 :], near)
+                if es is not None and n is not None:
+                    return es * n
+            return None
+        if len(t) == 1 and isinstance(t[0], dict) and t[0].get("g") == "(":
+            parts = split_top(t[0]["t"])
+            if not parts:
+                return 0
+            s = 0
+            for p in parts:
+                ps = self.type_size(p, near)
+                if ps is None:
+                    return None
+                s += ps
+            return s
+        # path types a::b::C
+        if all(isinstance(x, str) for x in t) and "::" in t and "<" not in t:
+            return self.type_size([t[-1]], near)
+        # generic instantiation Name<T> of a local binrw item with one type parameter
+        if len(t) >= 4 and isinstance(t[0], str) and t[1] == "<" and t[-1] == ">":
+            it = self.find_item(t[0], near)
+            if it is not None and is_binrw_item(it) and it.get("generics"):
+                m = re.match(r"^<\s*([A-Za-z_]\w*)", it["generics"])
+                if m:
+                    return self.item_size(it, args, tparams={m.group(1): t[2:-1]})
+        return None
+
+    def bitflags_repr(self, name):
+        """`bitflags! { #[binrw] struct Name : T { .. } }` -> T"""
+        for it in self.items.items:
+            if it["kind"] == "macro" and it["name"].endswith("bitflags"):
+                t = it["t"]
+                for i, tok in enumerate(t):
+                    if tok == "struct" and i + 3 < len(t) and t[i + 1] == name and t[i + 2] == ":":
+                        return t[i + 3]
+        return None
+
+    def bitflags_consts(self, name):
+        for it in self.items.items:
+            if it["kind"] == "macro" and it["name"].endswith("bitflags"):
+                t = it["t"]
+                for i, tok in enumerate(t):
+                    if tok == "struct" and i + 4 < len(t) and t[i + 1] == name:
+                        body = next((x for x in t[i + 2 :] if isinstance(x, dict) and x.get("g") == "{"), None)
+                        out = {}
+                        if body:
+                            bt = body["t"]
+                            for j, x in enumerate(bt):
+                                if x == "const" and j + 3 < len(bt) and bt[j + 2] == "=":
+                                    v = int_lit(bt[j + 3])
+                                    if v is not None:
+                                        out[bt[j + 1]] = v
+                        return out
+        return None
+
+    def manual_read_size(self, name, near=None):
+        """Size read by a hand-written `impl BinRead for T`: every return path of its read_options performs the same
+        sequence of primitive `read_options::<prim>` calls (taken from the MIR; loop-free bodies only)."""
+        if self.prog is None:
+            return None
+        cands = [b for n, b in self.prog.bodies.items() if n.endswith("as binrw::BinRead>::read_options") and not b.user_derived() and (n.startswith("<" + name + " ") or ("::" + name + " as ") in n)]
+        if len(cands) != 1:
+            return None
+        b = cands[0]
+        from .sym import Explorer
+
+        ex = Explorer(b, max_paths=200)
+        paths = ex.explore()
+        if ex.loops() or ex.truncated:
+            return None
+        sizes = set()
+        for p in paths:
+            if p.end != "return":
+                continue
+            tot = 0
+            ok_path = False
+            for (_bb, callee, args, _res) in p.events:
+                m = re.match(r"^binrw::binread::impls::<impl binrw::BinRead for (\w+)>::read_options$", callee)
+                if m and m.group(1) in PRIM and PRIM[m.group(1)]:
+                    tot += PRIM[m.group(1)]
+            # only success paths (those that construct the value) count: they are the longest
+            sizes.add(tot)
+        return max(sizes) if sizes else None
+
+    def generic_inner(self, tyt, outer):
+        """Tokens of T in `Outer<T>`."""
+        t = list(tyt)
+        if t and t[0] == outer and len(t) >= 4 and t[1] == "<" and t[-1] == ">":
+            return t[2:-1]
+        return None
+
+    # ---- items
+    def item_endian(self, it, side, inherited=None):
+        e = inherited
+        for d in directives(it["attrs"]):
+            if d.name in ("little", "big") and side in d.side:
+                e = d.name
+        return e
+
+    def item_size(self, it, args=None, tparams=None):
+        key = (it["path"], tuple(sorted((args or {}).items())), tuple(sorted((k, ty_text(v)) for k, v in (tparams or {}).items())))
+        if key in self._size_cache:
+            return self._size_cache[key]
+        self._size_cache[key] = None
+        self._tparams = tparams
+        try:
+            st = self.stream(it, "r", None, args)
+        finally:
+            self._tparams = None
+        total = 0
+        for f in st:
+            if f.kind == "seek" or f.size is None or (f.cond and not f.net_zero):
+                total = None
+                break
+            if not f.net_zero:
+                total += f.size
+        self._size_cache[key] = total
+        return total
+
+    def stream(self, it, side, inherited_endian=None, args=None):
+        """Ordered serialised stream of an item for side 'r' or 'w'."""
+        endian = self.item_endian(it, side, inherited_endian)
+        out = []
+        ids = directives(it["attrs"])
+        for d in ids:
+            if d.name == "magic" and side in d.side:
+                out.append(WField("<magic>", "magic", self.magic_size(d.value), endian, note=d.text))
+        repr_d = [d for d in ids if d.name == "repr" and side in d.side]
+        map_d0 = [d for d in ids if d.name == "map" and side in d.side]
+        if map_d0 and side == "r":
+            pt = self.map_source_type(map_d0[0].value)
+            if pt is not None:
+                out.append(WField("<mapped>", "data", self.type_size(pt, it), endian, ty=ty_text(pt)))
+                return out
+        if it["kind"] == "enum":
+            if repr_d:
+                rt = repr_d[0].value
+                out.append(WField("<repr>", "data", self.type_size(rt, it), endian, ty=ty_text(rt)))
+                return out
+            # magic-tagged / pre_assert enum: sizes per variant
+            sizes = set()
+            for v in it["variants"]:
+                vs = 0
+                pa = [d for d in directives(v["attrs"]) if d.name == "pre_assert" and side in d.side]
+                if pa and args and eval_cond(pa[0].value, args) is False:
+                    continue
+                for d in directives(v["attrs"]):
+                    if d.name == "magic" and side in d.side:
+                        ms = self.magic_size(d.value)
+                        vs = None if ms is None else vs + ms
+                for f in self.fields_stream(it, v["fields"], side, endian, args):
+                    if vs is None or f.size is None or f.cond or f.kind == "seek":
+                        vs = None
+                        break
+                    if not f.net_zero:
+                        vs += f.size
+                sizes.add(vs)
+            size = sizes.pop() if len(sizes) == 1 else None
+            out.append(WField("<variant>", "data", size, endian, ty=it["name"]))
+            return out
+        # item-level map: the wire type is the closure/function parameter type
+        map_d = [d for d in ids if d.name == "map" and side in d.side]
+        if map_d and side == "r":
+            pt = self.map_source_type(map_d[0].value)
+            if pt is not None:
+                out.append(WField("<mapped>", "data", self.type_size(pt, it), endian, ty=ty_text(pt)))
+                return out
+        out.extend(self.fields_stream(it, it["fields"], side, endian, args))
+        return out
+
+    def magic_size(self, toks):
+        if len(toks) == 1 and isinstance(toks[0], dict) and "lit" in toks[0]:
+            s = toks[0]["lit"]
+            if s.startswith('b"'):
+                body = s[2:-1]
+                return len(bytes(body, "utf-8").decode("unicode_escape").encode("latin-1"))
+            m = re.match(r"^(0x[0-9a-fA-F_]+|\d[\d_]*)(u8|u16|u32|u64|i8|i16|i32|i64)$", s)
+            if m:
+                return PRIM[m.group(2)]
+            if s.startswith("b'"):
+                return 1
+        return None
+
+    def map_source_type(self, toks):
+        """Parameter type tokens of `|x: T| ..` or of a named function `f::<T>` / `f` (looked up in the crate)."""
+        t = list(toks)
+        if t and t[0] == "|":
+            # | x : T | body
+            try:
+                j = t.index("|", 1)
+            except ValueError:
+                return None
+            params = t[1:j]
+            if ":" in params:
+                ty = params[params.index(":") + 1 :]
+                if ty and ty[0] == "&":
+                    ty = ty[1:]
+                return ty
+            return None
+        # fn path with turbofish: read_bool_from ::< u8 >
+        for open_ in ("::<", "<"):
+            if open_ in t and ">" in t:
+                i = t.index(open_)
+                j = len(t) - 1 - t[::-1].index(">")
+                if j > i:
+                    return t[i + 1 : j]
+        return None
+
+    def fields_stream(self, it, fields, side, endian, args=None):
+        out = []
+        for f in fields:
+            ds = [d for d in directives(f["attrs"]) if side in d.side]
+            dn = {}
+            for d in ds:
+                dn.setdefault(d.name, d)
+            fe = endian
+            if "little" in dn:
+                fe = "little"
+            if "big" in dn:
+                fe = "big"
+            # presence on this side
+            if side == "r" and ("calc" in dn or "ignore" in dn or "default" in dn):
+                continue  # not read from the stream
+            if side == "w" and "ignore" in dn:
+                continue
+            other = [d for d in directives(f["attrs"])]
+            if side == "w" and any(d.name == "temp" and "r" in d.side for d in other) and "calc" not in dn:
+                # br(temp) without bw(calc): not a field of the struct, nothing to write
+                continue
+            cond = dn["if"].text if "if" in dn else None
+            if cond is not None and args:
+                ev = eval_cond(dn["if"].value, args)
+                if ev is True:
+                    cond = None
+                elif ev is False:
+                    continue
+            if "seek_before" in dn:
+                out.append(WField(f["name"], "seek", None, note=dn["seek_before"].text, line=f["line"]))
+            if "pad_before" in dn:
+                out.append(WField(f["name"] + ".pad_before", "pad", self.int_expr(dn["pad_before"].value, it), cond=cond, line=f["line"]))
+            size, elem, count, ty = self.field_size(it, f, dn, side, args)
+            if "pad_size_to" in dn:
+                p = self.int_expr(dn["pad_size_to"].value, it)
+                note = f"pad_size_to={p}"
+                size = p if (p is not None and (size is None or size <= p)) else size
+            else:
+                note = None
+            wf = WField(f["name"], "data", size, fe, cond, ty, note, elem, count, f["pub"], f["line"], net_zero=("restore_position" in dn))
+            out.append(wf)
+            if "pad_after" in dn:
+                out.append(WField(f["name"] + ".pad_after", "pad", self.int_expr(dn["pad_after"].value, it), cond=cond, line=f["line"]))
+        return out
+
+    def field_size(self, it, f, dn, side, args):
+        tyt = f["tyt"]
+        ty = ty_text(tyt)
+        wire_t = tyt
+        # mapped fields: the wire type is the map source
+        if side == "r" and ("map" in dn or "try_map" in dn):
+            src = self.map_source_type((dn.get("map") or dn.get("try_map")).value)
+            if src is None:
+                fn = (dn.get("map") or dn.get("try_map")).text.replace(" ", "")
+                src = self.fn_param_type(fn)
+            if src is not None:
+                wire_t = src
+                ty = ty + "<-" + ty_text(src)
+            else:
+                return None, None, None, ty + "<-?"
+        if side == "w" and "map" in dn:
+            # writer map: the written type is the closure's / function's result; use the turbofish or fall back to count/pad
+            src = self.map_source_type(dn["map"].value)
+            if src is not None and dn["map"].value and dn["map"].value[0] != "|":
+                wire_t = src
+                ty = ty + "->" + ty_text(src)
+            else:
+                fn = dn["map"].text.replace(" ", "")
+                rt = self.fn_ret_type(fn) if dn["map"].value and dn["map"].value[0] != "|" else None
+                if rt is None:
+                    return None, None, None, ty + "->?"
+                ty = ty + "->" + ty_text(rt)
+                inner = self.generic_inner(rt, "Vec")
+                if inner is not None:
+                    n = self.vec_result_len(fn)
+                    es = self.type_size(inner, it, args)
+                    return (n * es if (n is not None and es is not None) else None), es, n, ty + (f"[len {n}]" if n is not None else "")
+                wire_t = rt
+        if "parse_with" in dn and side == "r":
+            return None, None, None, ty + " parse_with " + dn["parse_with"].text
+        if "write_with" in dn and side == "w":
+            return None, None, None, ty + " write_with " + dn["write_with"].text
+        inner = self.generic_inner(wire_t, "Vec")
+        if inner is not None:
+            es = self.type_size(inner, it, args)
+            if side == "r" and "count" in dn:
+                n = self.int_expr(dn["count"].value, it)
+                cnt = n if n is not None else dn["count"].text
+                return (es * n if (es is not None and n is not None) else None), es, cnt, ty
+            return None, es, None, ty
+        if args:
+            # forward only arguments the field passes on by the same name: `args(index_type)` / `args { x, y }`
+            fa = dn.get("args")
+            names = [t for t in (fa.value if fa else []) if isinstance(t, str) and t not in (",", "&", "*", ":")]
+            args = {k: v for k, v in args.items() if k in names} or None
+        opt = self.generic_inner(wire_t, "Option")
+        if opt is not None:
+            return self.type_size(opt, it, args), None, None, ty
+        return self.type_size(wire_t, it, args), None, None, ty
+
+    def fn_param_type(self, fn):
+        """First parameter type of a crate function used as `map = f` (from the signature tokens is not available in
+        wirefacts; known helpers are listed)."""
+        if self.prog is None:
+            return None
+        base = fn.split("::<")[0].split("::")[-1]
+        cands = [b for n, b in self.prog.bodies.items() if n.split("::")[-1] == base and b.j["kind"] in ("Fn", "AssocFn") and b.argc >= 1 and not b.user_derived()]
+        if len(cands) > 1:
+            cands = [b for b in cands if b.j["kind"] == "Fn"] or cands
+        if len(cands) != 1:
+            return None
+        return tystr_tokens(cands[0].locals[1]["ty"])
+
+    def vec_result_len(self, fn):
+        """Length of the Vec a writer-side map function returns, when it is built by `vec![x; CONST]` and its length
+        is never changed afterwards (checked on the MIR: from_elem with a constant count feeding the return place, and
+        no length-changing Vec method applied to it)."""
+        if self.prog is None:
+            return None
+        base = fn.split("::<")[0].split("::")[-1]
+        cands = [b for n, b in self.prog.bodies.items() if n.split("::")[-1] == base and b.j["kind"] == "Fn" and not b.user_derived()]
+        if len(cands) != 1:
+            return None
+        b = cands[0]
+        from .mir import const_int, op_place
+
+        n = None
+        vec_local = None
+        for _bi, t in b.calls():
+            c = t.get("res") or ""
+            if c.endswith("vec::from_elem") and len(t["args"]) == 2:
+                v = const_int(t["args"][1])
+                if v is not None and not t["dest"]["p"]:
+                    n, vec_local = v, t["dest"]["l"]
+        if n is None:
+            return None
+        # the vec local (or a move of it) must be what is returned
+        aliases = {vec_local}
+        changed = True
+        while changed:
+            changed = False
+            for _bi, _si, st in b.stmts():
+                if st["k"] == "assign" and st["rv"]["k"] == "use":
+                    p = op_place(st["rv"]["a"])
+                    if p and not p["p"] and p["l"] in aliases and not st["lhs"]["p"] and st["lhs"]["l"] not in aliases:
+                        aliases.add(st["lhs"]["l"])
+                        changed = True
+        if 0 not in aliases:
+            return None
+        LEN_CHANGING = ("push", "resize", "resize_with", "truncate", "insert", "remove", "extend", "extend_from_slice", "append", "clear", "pop", "drain", "retain", "dedup", "split_off", "swap_remove", "set_len", "reserve")
+        refs = set()
+        for _bi, _si, st in b.stmts():
+            if st["k"] == "assign" and st["rv"]["k"] in ("ref", "rawptr") and st["rv"]["p"]["l"] in aliases and not st["lhs"]["p"]:
+                refs.add(st["lhs"]["l"])
+        for _bi, t in b.calls():
+            c = (t.get("res") or "").split("::")[-1]
+            if c in LEN_CHANGING and ("vec::Vec" in (t.get("res") or "")):
+                p = op_place(t["args"][0]) if t["args"] else None
+                if p and (p["l"] in refs or p["l"] in aliases):
+                    return None
+        return n
+
+    def fn_ret_type(self, fn):
+        if self.prog is None:
+            return None
+        base = fn.split("::<")[0].split("::")[-1]
+        cands = [b for n, b in self.prog.bodies.items() if n.split("::")[-1] == base and b.j["kind"] in ("Fn", "AssocFn") and not b.user_derived()]
+        if len(cands) != 1:
+            return None
+        return tystr_tokens(cands[0].locals[0]["ty"])
+
+    def offsets(self, st):
+        """Annotate a stream with byte offsets while the prefix is fixed.  Returns list of (offset|None, WField)."""
+        off = 0
+        out = []
+        for f in st:
+            if f.kind == "seek":
+                off = None
+                out.append((None, f))
+                continue
+            out.append((off, f))
+            if off is not None:
+                if f.size is None or (f.cond and not f.net_zero):
+                    off = None
+                elif not f.net_zero:
+                    off += f.size
+        return out
+
+
+def eval_cond(toks, args):
+    """Evaluate `* name == Path::Variant` / `name != X` under known import-argument values; None if not decidable."""
+    t = [x for x in toks if x != "*"]
+    for op in ("==", "!="):
+        if op in t:
+            i = t.index(op)
+            lhs, rhs = t[:i], t[i + 1 :]
+            if len(lhs) == 1 and isinstance(lhs[0], str) and lhs[0] in args and all(isinstance(x, str) for x in rhs):
+                val = "".join(rhs)
+                same = val.split("::")[-1] == str(args[lhs[0]]).split("::")[-1]
+                return same if op == "==" else not same
+    return None
+
+
+def tystr_tokens(s):
+    """Token list (wirefacts style) of a rustc-printed type such as `std::vec::Vec<u8>` or `[gearsets::GearSlot; 14]`."""
+    toks = re.findall(r"[A-Za-z_][A-Za-z0-9_]*|\d+|::|[<>\[\]();,&]", s)
+
+    def parse(i, closer):
+        out = []
+        while i < len(toks):
+            t = toks[i]
+            if t == closer:
+                return out, i + 1
+            if t == "[":
+                inner, i = parse(i + 1, "]")
+                out.append({"g": "[", "t": inner})
+                continue
+            if t == "(":
+                inner, i = parse(i + 1, ")")
+                out.append({"g": "(", "t": inner})
+                continue
+            if t.isdigit():
+                out.append({"lit": t})
+            else:
+                out.append(t)
+            i += 1
+        return out, i
+
+    out, _ = parse(0, None)
+    # drop module paths: a::b::C -> C
+    res = []
+    i = 0
+    while i < len(out):
+        if i + 1 < len(out) and out[i + 1] == "::" and isinstance(out[i], str):
+            i += 2
+            continue
+        res.append(out[i])
+        i += 1
+    if res and res[0] == "&":
+        res = res[1:]
+    return res
+
+
+def signature(wm, it, side="r", args=None):
+    """Normalised layout signature of an item: list of tuples (see spec/layouts.txt for the DSL)."""
+    out = []
+    for f in wm.stream(it, side, None, args):
+        if f.kind == "seek":
+            out.append(("seek",))
+        elif f.kind == "pad":
+            n = f.size
+            if out and out[-1][0] == "gap" and n is not None and out[-1][1] is not None:
+                out[-1] = ("gap", out[-1][1] + n)
+            else:
+                out.append(("gap", n))
+        elif f.kind == "magic":
+            out.append(("magic", f.size))
+        elif f.net_zero:
+            out.append(("peek", f.size, f.name if f.public else "_"))
+        elif f.cond:
+            out.append(("cond", f.size, f.name if f.public else "_"))
+        elif f.size is None:
+            out.append(("var", f.name if f.public else "_", f.elem))
+        else:
+            e = f.endian if (f.endian and f.size and f.size > 1) else None
+            out.append(("f", f.size, f.name if f.public else "_") + ((e,) if e else ()))
+    return out
+
+
+def sig_text(sig):
+    lines = []
+    for t in sig:
+        if t[0] == "f":
+            lines.append(f"  {t[1]} {t[2]}" + (f" {t[3]}" if len(t) > 3 else ""))
+        elif t[0] == "gap":
+            lines.append(f"  gap {t[1]}")
+        elif t[0] == "magic":
+            lines.append(f"  magic {t[1]}")
+        elif t[0] == "var":
+            lines.append(f"  var {t[1]} elem={t[2]}")
+        elif t[0] == "cond":
+            lines.append(f"  cond {t[1]} {t[2]}")
+        elif t[0] == "peek":
+            lines.append(f"  peek {t[1]} {t[2]}")
+        elif t[0] == "seek":
+            lines.append("  seek")
+    return lines
+
+
+def parse_layouts(path):
+    """Parse spec/layouts.txt -> list of dict(type, args, size, basis, sig)."""
+    out = []
+    cur = None
+    with open(path) as fh:
+        for raw in fh:
+            line = raw.split("#", 1)[0].rstrip()
+            if not line.strip():
+                continue
+            if line.startswith("type "):
+                parts = line.split()
+                cur = dict(type=parts[1], args={}, size=None, basis="", sig=[])
+                for p_ in parts[2:]:
+                    if "=" in p_:
+                        k, v = p_.split("=", 1)
+                        if k == "size":
+                            cur["size"] = None if v == "var" else int(v)
+                        elif k == "basis":
+                            cur["basis"] = v
+                        else:
+                            cur["args"][k] = v
+                out.append(cur)
+                continue
+            t = line.split()
+            def num(x):
+                return None if x == "None" else int(x)
+            if t[0] == "gap":
+                cur["sig"].append(("gap", num(t[1])))
+            elif t[0] == "magic":
+                cur["sig"].append(("magic", num(t[1])))
+            elif t[0] == "var":
+                cur["sig"].append(("var", t[1], num(t[2].split("=")[1])))
+            elif t[0] == "cond":
+                cur["sig"].append(("cond", num(t[1]), t[2]))
+            elif t[0] == "peek":
+                cur["sig"].append(("peek", num(t[1]), t[2]))
+            elif t[0] == "seek":
+                cur["sig"].append(("seek",))
+            else:
+                cur["sig"].append(("f", int(t[0]), t[1]) + ((t[2],) if len(t) > 2 else ()))
+    return out
